@@ -227,6 +227,12 @@ func c18GenSchemaX(r *core.Rng, rich bool) (*yang.Stmt, *snode) {
 					sn.ordUser = true
 				}
 				sn.kids = append(sn.kids, &snode{kw: "leaf", name: "k", vals: []string{"k1", "k2", "k3", "k4", "k5"}, rtype: &yang.RType{Kind: "string"}})
+				if rich && r.Chance(1, 3) {
+					// a list with two keys: its entries are told apart by both values
+					s.Find("key").Arg = "k k2"
+					s.Add(yang.S("leaf", "k2", yang.S("type", "string")))
+					sn.kids = append(sn.kids, &snode{kw: "leaf", name: "k2", vals: []string{"a", "b"}, rtype: &yang.RType{Kind: "string"}})
+				}
 				ks, kn := genKids(depth+1, r.Range(1, 3), false)
 				s.Add(ks...)
 				sn.kids = append(sn.kids, kn...)
@@ -457,7 +463,7 @@ func c18GenKids(r *core.Rng, kids []*snode, fill int) []*dnode {
 	for _, k := range kids {
 		switch k.kw {
 		case "leaf":
-			if k.name == "k" {
+			if k.name == "k" || k.name == "k2" {
 				continue // key leaves are added by the list code
 			}
 			if k.mandatory || r.Chance(fill, 4) {
@@ -513,9 +519,18 @@ func c18GenKids(r *core.Rng, kids []*snode, fill int) []*dnode {
 				// entries in an order that is not the sorted order of their keys ("k10" sorts before "k2")
 				keyPool := []string{"k3", "k10", "k1", "k2", "k05", "K4"}
 				off := r.Intn(len(keyPool))
+				twoKeys := false
+				for _, kk := range k.kids {
+					twoKeys = twoKeys || (kk.kw == "leaf" && kk.name == "k2")
+				}
 				for i := 0; i < n; i++ {
 					kv := keyPool[(off+i)%len(keyPool)]
 					e := &dnode{name: kv, kids: []*dnode{{name: "k", vals: []string{kv}}}}
+					if twoKeys {
+						// pairs of entries that agree on the first key
+						kv = keyPool[(off+i/2)%len(keyPool)]
+						e = &dnode{name: kv, kids: []*dnode{{name: "k", vals: []string{kv}}, {name: "k2", vals: []string{[]string{"b", "a"}[i%2]}}}}
+					}
 					e.kids = append(e.kids, c18GenKids(r, k.kids, fill)...)
 					d.kids = append(d.kids, e)
 				}
